@@ -11,6 +11,7 @@ import (
 	"fmt"
 	"os"
 	"strconv"
+	"strings"
 )
 
 func main() {
@@ -60,7 +61,13 @@ func main() {
 		sl := bufio.NewScanner(lean)
 		sl.Buffer(make([]byte, 1<<20), 1<<28)
 		w := bufio.NewWriterSize(resultOut, 1<<20)
+		var titleWords []string
 		for so.Scan() {
+			if op, a := parseLine(so.Text()); op == "wlnew" || op == "wlgen" {
+				if ws := a["words"]; len(ws) < 4096 && ws != "nil" && !strings.HasPrefix(ws, "@") {
+					titleWords = append(titleWords, decList(ws)...)
+				}
+			}
 			leanLine := ""
 			if sl.Scan() {
 				leanLine = sl.Text()
@@ -69,6 +76,9 @@ func main() {
 			w.WriteByte('\n')
 		}
 		w.Flush()
+		if len(titleWords) > 200 {
+			checkTitleIdempotent(titleWords)
+		}
 		js, _ := json.Marshal(st)
 		os.WriteFile(os.Args[4], js, 0o644)
 	case "sweep":
